@@ -228,7 +228,7 @@ def run(tier, seed, replay=None):
     cfg = GenCfg(mix_kinds=0.7, p_range=0.2, p_plural=0.15, p_fk=0.25, p_null=0.1, p_absent=0.1, n_locales=(2, 4))
     projs = [projects.gen_valid_project(rng, cfg) for _ in range(n)]
     for _ in range(n // 3):
-        b = c06.Builder(rng, tier)
+        b = c06.Builder(rng, tier, c06.builder_ptable())
         projs.append(b.build(rng.randint(4, 7), rng.randint(3, 7)))
     ptable = workload.plural_table_for(projs)
     dirs, _ = workload.materialise(projs, "c08", seed=seed)
